@@ -25,6 +25,11 @@ pub trait Source {
     fn next(&mut self, w: &World) -> Option<(usize, Op)>;
     /// A collection call returned a `MarkedArena` that was kept for `finalize`: enter it now?
     fn want_finalize(&mut self, w: &World, ai: usize) -> bool;
+    /// `new` is about to create arena `ai`: run its constructor callback with ops (`Arena::new` /
+    /// `try_new` with a non-trivial closure)?  Returns the constructor kind.
+    fn want_ctor(&mut self, _w: &World, _ai: usize) -> Option<Cb> {
+        None
+    }
 }
 
 pub struct ArenaSlot {
@@ -65,6 +70,9 @@ struct CbCtx<'a, 'gc> {
     fc: Option<&'gc Finalization<'gc>>,
     root: RootRef<'a, 'gc>,
     temps: Vec<(SP, P<'gc>)>,
+    /// emit the observation of `leave` from inside the callback (the arena may not exist any more
+    /// once the API call returns: `try_map_root` / `try_new` failing, a panic inside `map_root`)
+    leave_inside: bool,
 }
 
 fn cphase(p: CollectionPhase) -> CPhase {
@@ -341,6 +349,9 @@ impl World {
                 self.skip(ai, &op);
                 return;
             }
+            if let Some(kind) = src.want_ctor(self, ai) {
+                return self.new_with_ctor(ai, n, kind, src);
+            }
             self.write_op(ai, &op);
             let arena = TestArena::new(|_mc| Root { slots: [None; NROOT] });
             let metrics = arena.metrics().clone();
@@ -385,7 +396,7 @@ impl World {
                 let arena = self.arenas[ai].arena.take().unwrap();
                 let r = catch_unwind(AssertUnwindSafe(|| {
                     arena.mutate(|mc, root| {
-                        let mut cb = CbCtx { mc, fc: None, root: RootRef::Shared(root), temps: vec![] };
+                        let mut cb = CbCtx { mc, fc: None, root: RootRef::Shared(root), temps: vec![], leave_inside: false };
                         self.enter_obs(ai, &op, &cb, pre);
                         self.callback_loop(ai, &mut cb, src)
                     })
@@ -399,7 +410,7 @@ impl World {
                 let mut arena = self.arenas[ai].arena.take().unwrap();
                 let r = catch_unwind(AssertUnwindSafe(|| {
                     arena.mutate_root(|mc, root| {
-                        let mut cb = CbCtx { mc, fc: None, root: RootRef::Mut(root), temps: vec![] };
+                        let mut cb = CbCtx { mc, fc: None, root: RootRef::Mut(root), temps: vec![], leave_inside: false };
                         self.enter_obs(ai, &op, &cb, pre);
                         self.callback_loop(ai, &mut cb, src)
                     })
@@ -407,8 +418,120 @@ impl World {
                 self.arenas[ai].arena = Some(arena);
                 self.after_callback(ai, r);
             }
+            Op::Enter(kind) if kind.is_map() => {
+                self.write_op(ai, &op);
+                let pre = self.pre(ai);
+                let arena = self.arenas[ai].arena.take().unwrap();
+                // Ok(Some(arena)): mapped; Ok(None): the callback returned Err, the arena was dropped
+                // inside `try_map_root`; Err(_): the callback panicked, the arena was dropped by the
+                // unwind
+                let r = catch_unwind(AssertUnwindSafe(|| {
+                    if kind == Cb::MapRoot {
+                        Some(arena.map_root::<Rootable![Root<'_>]>(|mc, mut root| {
+                            let mut cb = CbCtx { mc, fc: None, root: RootRef::Mut(&mut root), temps: vec![], leave_inside: true };
+                            self.enter_obs(ai, &op, &cb, pre);
+                            self.callback_loop(ai, &mut cb, src);
+                            drop(cb);
+                            root
+                        }))
+                    } else {
+                        arena
+                            .try_map_root::<Rootable![Root<'_>], ()>(|mc, mut root| {
+                                let mut cb = CbCtx { mc, fc: None, root: RootRef::Mut(&mut root), temps: vec![], leave_inside: true };
+                                self.enter_obs(ai, &op, &cb, pre);
+                                self.callback_loop(ai, &mut cb, src);
+                                drop(cb);
+                                if kind == Cb::TryMapRootErr { Err(()) } else { Ok(root) }
+                            })
+                            .ok()
+                    }
+                }));
+                self.after_owned_callback(ai, r);
+            }
             _ => self.skip(ai, &op),
         }
+    }
+
+    /// `Arena::new` / `try_new` whose constructor closure runs ops.  Protocol: `new n` (observed
+    /// from inside the constructor), `enter <ctor kind>`, the ops, `leave`, and — when the
+    /// constructor fails or panics, so that no arena comes into being — `droparena`.
+    fn new_with_ctor(&mut self, ai: usize, n: usize, kind: Cb, src: &mut dyn Source) {
+        let op_new = Op::New(n);
+        let op_enter = Op::Enter(kind);
+        self.write_op(ai, &op_new);
+        let r = catch_unwind(AssertUnwindSafe(|| {
+            let body = |this: &mut World, mc: &Mutation<'_>| {
+                let metrics = mc.metrics().clone();
+                metrics.set_pacing(pacing_of(&P0));
+                this.arenas.push(ArenaSlot { colors: HashMap::new(), phase: b'Z', arena: None, metrics: Some(metrics), addr2id: HashMap::new(), shadow: Shadow::new(n) });
+                let snap = mc.verif_snapshot();
+                let ph = cphase_of_snapshot(&snap);
+                this.finish_op(ai, &op_new, "ok".into(), Pre { phase: CPhase::Sleeping, debt: 0.0, total: 0 }, Some(&snap), ph, String::new());
+                this.write_op(ai, &op_enter);
+            };
+            if kind == Cb::NewCtor {
+                Some(TestArena::new(|mc| {
+                    body(self, mc);
+                    let mut root = Root { slots: [None; NROOT] };
+                    let pre = Pre { phase: CPhase::Sleeping, debt: 0.0, total: 0 };
+                    let mut cb = CbCtx { mc, fc: None, root: RootRef::Mut(&mut root), temps: vec![], leave_inside: true };
+                    self.enter_obs(ai, &op_enter, &cb, pre);
+                    self.callback_loop(ai, &mut cb, src);
+                    drop(cb);
+                    root
+                }))
+            } else {
+                TestArena::try_new::<_, ()>(|mc| {
+                    body(self, mc);
+                    let mut root = Root { slots: [None; NROOT] };
+                    let pre = Pre { phase: CPhase::Sleeping, debt: 0.0, total: 0 };
+                    let mut cb = CbCtx { mc, fc: None, root: RootRef::Mut(&mut root), temps: vec![], leave_inside: true };
+                    self.enter_obs(ai, &op_enter, &cb, pre);
+                    self.callback_loop(ai, &mut cb, src);
+                    drop(cb);
+                    if kind == Cb::TryNewErr { Err(()) } else { Ok(root) }
+                })
+                .ok()
+            }
+        }));
+        if self.arenas.len() == ai {
+            // the constructor never ran its body (cannot happen): keep the protocol aligned
+            self.arenas.push(ArenaSlot { colors: HashMap::new(), phase: b'Z', arena: None, metrics: None, addr2id: HashMap::new(), shadow: Shadow::new(n) });
+        }
+        self.after_owned_callback(ai, r);
+    }
+
+    /// After a callback that owned the root (`map_root`, `try_map_root`, the constructor of `new` /
+    /// `try_new`): the observation of `leave` was emitted inside the callback.  If the API call
+    /// produced an arena it goes (back) into the slot; otherwise the arena is gone — everything it
+    /// allocated must have been released — which the protocol records as `droparena`.
+    fn after_owned_callback(&mut self, ai: usize, r: std::thread::Result<Option<TestArena>>) {
+        match r {
+            Ok(Some(arena)) => {
+                self.arenas[ai].arena = Some(arena);
+            }
+            Ok(None) => self.arena_gone(ai, "ok"),
+            Err(e) => {
+                if e.downcast_ref::<CallbackPanic>().is_none() {
+                    let msg = e.downcast_ref::<String>().cloned().or_else(|| e.downcast_ref::<&str>().map(|s| s.to_string())).unwrap_or_else(|| "?".into());
+                    let _ = writeln!(self.out, "# unexpected panic inside an owning callback: {msg}");
+                    self.violations.push((
+                        self.op_index,
+                        Violation { property: "C06", key: "", what: format!("unexpected panic inside map_root / try_map_root / new: {msg}") },
+                        format!("op {ai} leave"),
+                    ));
+                }
+                self.arenas[ai].shadow.pending_fault = false;
+                self.arena_gone(ai, "ok")
+            }
+        }
+    }
+
+    fn arena_gone(&mut self, ai: usize, ret: &str) {
+        let op = Op::DropArena;
+        self.write_op(ai, &op);
+        let pre = self.pre(ai);
+        self.finish_op(ai, &op, ret.into(), pre, None, CPhase::Sleeping, String::new());
     }
 
     fn finish_top(&mut self, ai: usize, op: &Op, ret: String, pre: Pre, steps: String) {
@@ -511,7 +634,7 @@ impl World {
                     match m {
                         None => Err(()),
                         Some(m) => Ok(m.finalize(|fc, root| {
-                            let mut cb = CbCtx { mc: fc, fc: Some(fc), root: RootRef::Shared(root), temps: vec![] };
+                            let mut cb = CbCtx { mc: fc, fc: Some(fc), root: RootRef::Shared(root), temps: vec![], leave_inside: false };
                             self.enter_obs(ai, &op, &cb, pre);
                             self.callback_loop(ai, &mut cb, src)
                         })),
@@ -581,7 +704,12 @@ impl World {
                 // source exhausted inside a callback: leave normally
                 let op = Op::Leave { panic: false };
                 self.write_op(ai, &op);
-                return (self.pre_cb(ai, cb), false);
+                let pre = self.pre_cb(ai, cb);
+                if cb.leave_inside {
+                    let pre2 = self.pre_cb(ai, cb);
+                    self.finish_cb(ai, cb, &op, "ok".into(), pre2);
+                }
+                return (pre, false);
             };
             if ai2 != ai {
                 // an op on another arena, issued from inside this callback
@@ -592,6 +720,10 @@ impl World {
                 Op::Leave { panic } => {
                     self.write_op(ai, &op);
                     let pre = self.pre_cb(ai, cb);
+                    if cb.leave_inside {
+                        let pre2 = self.pre_cb(ai, cb);
+                        self.finish_cb(ai, cb, &op, "ok".into(), pre2);
+                    }
                     if panic {
                         std::panic::panic_any(CallbackPanic);
                     }
